@@ -14,10 +14,10 @@ META = {
 
 def configs(tier):
     cs = []
-    def add(sp, finish=1, seeds=(0,), single=0, **kw):
+    def add(sp, finish=1, seeds=(0,), single=0, tiny=0, **kw):
         kw.setdefault('strategy', 'tree'); kw.setdefault('solver_timeout_ms', 5000)
         for ps in seeds:   # several root permutations: the branch-tree search explores the neighbourhood of each
-            cs.append(Config(short(sp) + ('-fin' if finish else '') + ('-r%d' % ps if ps else '') + ('-single' if single else ''), 'C09', [sp, finish, ps, single], **kw))
+            cs.append(Config(short(sp) + ('-fin' if finish else '') + ('-r%d' % ps if ps else '') + ('-single' if single else '') + ('-tiny' if tiny else ''), 'C09', [sp, finish, ps, single] + (['vs=1e-13'] if tiny else []), **kw))
     if tier == 'quick':
         add(spec('sequence', 'rleja', 2, 1, 1), max_paths=40); add(spec('sequence', 'leja', 2, 1, 2), max_paths=25)
         add(spec('global', 'rleja', 2, 1, 1), max_paths=40); add(spec('global', 'clenshaw-curtis', 1, 1, 2), max_paths=25); add(spec('global', 'rleja', 2, 1, 2), max_paths=25)
@@ -25,7 +25,11 @@ def configs(tier):
         add(spec('localp', 'localp-zero', 1, 1, 2, order=3), max_paths=25); add(spec('localp', 'localp', 1, 1, 2, order=0), max_paths=25)
         add(spec('fourier', 'fourier', 1, 1, 1), max_paths=30); add(spec('fourier', 'fourier', 2, 1, 1), max_paths=15)
         add(spec('wavelet', 'wavelet', 1, 1, 1, order=1), max_paths=20)
+        # values of magnitude 1e-13 (the obligations scale with them): absolute thresholds inside the linear surplus updates
+        add(spec('localp', 'localp', 1, 1, 2, order=1), single=1, tiny=1, max_paths=60); add(spec('localp', 'localp', 2, 1, 2, order=1), single=1, tiny=1, max_paths=25, seeds=(0, 1, 2, 3)); add(spec('sequence', 'rleja', 2, 1, 1), single=1, tiny=1, max_paths=30); add(spec('global', 'rleja', 2, 1, 1), tiny=1, max_paths=20)
     else:
+        for rule in LOCAL_RULES: add(spec('localp', rule, 2, 1, 1, order=1), single=1, tiny=1, max_paths=150, seeds=(0, 1)); add(spec('localp', rule, 1, 1, 2, order=2), single=1, tiny=1, max_paths=200)
+        add(spec('sequence', 'leja', 2, 1, 2), single=1, tiny=1, max_paths=100); add(spec('global', 'clenshaw-curtis', 2, 1, 1), tiny=1, max_paths=60); add(spec('fourier', 'fourier', 1, 1, 1), tiny=1, max_paths=40)
         for rule in SEQUENCE_RULES:
             add(spec('sequence', rule, 2, 2, 2), single=1, max_paths=120, seeds=(0, 1)); add(spec('sequence', rule, 1, 3, 3), single=1, max_paths=100)
             add(spec('sequence', rule, 2, 1, 1), max_paths=200); add(spec('sequence', rule, 2, 1, 2), single=1, max_paths=200, seeds=(0, 1)); add(spec('sequence', rule, 2, 2, 2), max_paths=150); add(spec('sequence', rule, 2, 1, 3), max_paths=80); add(spec('sequence', rule, 3, 1, 2, limits=2), max_paths=80)
